@@ -204,7 +204,7 @@ def ensure_models(header):
     """The modules a cases file imports must be compiled from the current sources (a property file need not
     depend on its evaluation entry points, e.g. Model/StatsEval.v)."""
     mods = []
-    for m in re.finditer(r"From MiniMcmc Require (?:Import|Export) ((?:[A-Za-z_0-9.]+\s*)+)\.", header):
+    for m in re.finditer(r"From MiniMcmc Require (?:Import|Export) ((?:[A-Za-z_][A-Za-z_0-9]*(?:\.[A-Za-z_][A-Za-z_0-9]*)*[ \t]*)+)\.(?:\s|$)", header):
         mods += m.group(1).split()
     targets = [x.replace(".", "/") + ".vo" for x in mods]
     if not targets:
